@@ -598,6 +598,157 @@ Proof.
   apply seqS'; [apply HL | reflexivity | apply kw_fiS].
 Qed.
 
+(** ---- command lines exactly as pest accepts them: a line may START with a keyword word
+        (`fix`, `elsewhere`, `done7`, `else x`, `fi x`); refused are only `if ..`, `for ..`, `else if ..`,
+        `while ..` (keyword + blank) and the bare words `else`, `fi`, `done` ---- *)
+Definition cmd_ok2 (line : str) : bool :=
+  forallb okc line && starts_nonws line && ends_nonws line && negb (starts_kw line).
+
+Lemma strip_prefix_eq p : forall s x, strip_prefix p s = Some x -> s = p ++ x.
+Proof.
+  induction p as [|a p IH]; intros s x H; cbn in H.
+  - injection H as ->. reflexivity.
+  - destruct s as [|c s]; [discriminate|]. destruct (a =? c) eqn:E; [|discriminate].
+    apply N.eqb_eq in E. subst c. cbn. f_equal. apply IH, H.
+Qed.
+
+Lemma ends_ok_app_ne p x : x <> [] -> ends_ok (p ++ x) = ends_ok x.
+Proof.
+  intro H. induction p as [|c p IH]; [reflexivity|]. cbn [app]. rewrite ends_ok_tail; [exact IH|].
+  destruct p; cbn; [exact H | discriminate].
+Qed.
+
+Lemma ends_nonws_ok t : ends_nonws t = true -> ends_ok t = true.
+Proof.
+  unfold ends_nonws, ends_ok. destruct (rev t); [reflexivity|]. intro H. apply negb_true_iff in H.
+  rewrite (blank_ws _ H). reflexivity.
+Qed.
+
+Lemma kw_word_fail kw T line rest pos :
+  forallb (fun c => negb (c =? 10)) kw = true ->
+  (forall pos c r, okc c = true -> EV T AtNon pos (c :: r) PFail) ->
+  str_eqb line kw = false -> forallb okc line = true -> ends_ok line = true ->
+  EV (PSeq (PStr kw) T) AtNon pos (line ++ 10 :: rest) PFail.
+Proof.
+  intros Hkw HT Hne Hok He.
+  destruct (strip_prefix kw line) as [x|] eqn:Ep.
+  - apply strip_prefix_eq in Ep. subst line.
+    assert (Hx : x <> []). { intro Z. subst x. rewrite app_nil_r, str_eqb_refl in Hne. discriminate. }
+    destruct (span_bl x) as [a b] eqn:Es. destruct (span_bl_spec _ _ _ Es) as [Ex [Ha Hb]]. subst x.
+    rewrite ends_ok_app_ne in He by exact Hx.
+    destruct b as [|c b].
+    { rewrite app_nil_r in *. rewrite all_blank_ends in He; [discriminate | exact Hx | exact Ha]. }
+    rewrite !forallb_app in Hok. apply andb_prop in Hok as [_ Hok]. apply andb_prop in Hok as [_ Hok].
+    cbn [forallb] in Hok. apply andb_prop in Hok as [Hc _].
+    rewrite <- !app_assoc. cbn [app].
+    eapply evals_seq_fail_b; [apply evals_str_ok, strip_prefix_app_some | apply skip_blanks; [exact Ha | exact Hb] | apply HT, Hc].
+  - apply evals_seq_fail, evals_str_fail, strip_prefix_app_none; assumption.
+Qed.
+
+Lemma nl_or_eoi_fail pos c r : okc c = true -> EV (PAlt NL PEoi) AtNon pos (c :: r) PFail.
+Proof. intro H. apply evals_alt_r; [apply nl_fail, H|]. apply (evals_of_ev l_grammar 1); [reflexivity|discriminate]. Qed.
+
+Lemma kw_list_fail2 pos line rest : cmd_ok2 line = true -> EV (PRef L_KW_LIST) AtNon pos (line ++ 10 :: rest) PFail.
+Proof.
+  intro H. unfold cmd_ok2 in H. apply andb_prop in H as [H Hkw]. apply andb_prop in H as [H He]. apply andb_prop in H as [Hok _].
+  apply ends_nonws_ok in He. apply negb_true_iff in Hkw. unfold starts_kw in Hkw.
+  apply orb_false_iff in Hkw as [Hkw Hdone]. apply orb_false_iff in Hkw as [Hkw Hfi]. apply orb_false_iff in Hkw as [Hkw Helse].
+  apply orb_false_iff in Hkw as [Hkw Hwhile]. apply orb_false_iff in Hkw as [Hkw Helif]. apply orb_false_iff in Hkw as [Hif Hfor].
+  ref_s.
+  apply evals_alt_r; [ref_s; apply evals_str_fail, nokw_fail; [exact Hif|reflexivity]|].
+  apply evals_alt_r; [ref_s; apply evals_str_fail, nokw_fail; [exact Hfor|reflexivity]|].
+  apply evals_alt_r; [ref_s; apply evals_str_fail, nokw_fail; [exact Helif|reflexivity]|].
+  apply evals_alt_r; [ref_nf; apply (kw_word_fail s_else NL); [reflexivity | intros; apply nl_fail; assumption | exact Helse | exact Hok | exact He]|].
+  apply evals_alt_r; [ref_s; apply (kw_word_fail s_fi (PAlt NL PEoi)); [reflexivity | apply nl_or_eoi_fail | exact Hfi | exact Hok | exact He]|].
+  apply evals_alt_r; [ref_s; apply evals_str_fail, nokw_fail; [exact Hwhile|reflexivity]|].
+  ref_s; apply (kw_word_fail s_done (PAlt NL PEoi)); [reflexivity | apply nl_or_eoi_fail | exact Hdone | exact Hok | exact He].
+Qed.
+
+Lemma cmd_parses2 pos line rest : cmd_ok2 line = true ->
+  EV (PRef L_CMD) AtNon pos (line ++ 10 :: rest)
+     (POk (S (pos + length line)) rest [Node L_CMD pos (S (pos + length line)) []]).
+Proof.
+  intro H0. pose proof H0 as H. unfold cmd_ok2 in H.
+  apply andb_prop in H as [H Hkw]. apply andb_prop in H as [H He]. apply andb_prop in H as [Hok Hs].
+  destruct line as [|c t]; [discriminate|].
+  cbn [starts_nonws] in Hs. apply negb_true_iff in Hs.
+  assert (Hb : is_blank c = false) by (apply blank_ws, Hs).
+  assert (He' : ends_ok (c :: t) = true) by (apply ends_nonws_ok, He).
+  cbn [forallb] in Hok. apply andb_prop in Hok as [Hc Hok].
+  eapply evals_ref_normal_ok; [reflexivity | reflexivity |].
+  apply evals_alt_l. ref_s.
+  change (@nil tree) with ([] ++ [] ++ ([] ++ [] ++ @nil tree))%list.
+  eapply evals_seq_ok.
+  - apply evals_not_ok. apply (kw_list_fail2 pos (c :: t) rest H0).
+  - apply skip_none. cbn. exact Hb.
+  - eapply evals_seq_ok.
+    + apply (line_chars c t pos rest Hc Hb Hok He').
+    + apply skip_none. reflexivity.
+    + apply nl_ok.
+Qed.
+
+Lemma cmd_ok2_facts line : cmd_ok2 line = true ->
+  forall rest, starts_blank (line ++ 10 :: rest) = false /\
+  strip_prefix s_if (line ++ 10 :: rest) = None /\ strip_prefix s_for (line ++ 10 :: rest) = None /\
+  strip_prefix s_while (line ++ 10 :: rest) = None.
+Proof.
+  intros H rest. unfold cmd_ok2 in H.
+  apply andb_prop in H as [H Hkw]. apply andb_prop in H as [H He]. apply andb_prop in H as [Hok Hs].
+  apply negb_true_iff in Hkw. unfold starts_kw in Hkw.
+  apply orb_false_iff in Hkw as [Hkw _]. apply orb_false_iff in Hkw as [Hkw _]. apply orb_false_iff in Hkw as [Hkw _].
+  apply orb_false_iff in Hkw as [Hkw Hwhile]. apply orb_false_iff in Hkw as [Hkw _]. apply orb_false_iff in Hkw as [Hif Hfor].
+  split; [|repeat split; apply nokw_fail; (assumption || reflexivity)].
+  destruct line as [|c t]; [discriminate|]. cbn. apply blank_ws. cbn in Hs. apply negb_true_iff in Hs. exact Hs.
+Qed.
+
+Lemma cmd_parsed2 pre line rest : cmd_ok2 line = true -> parsed (PRef L_CMD) pre (line ++ [10]) rest [cmd_t line].
+Proof.
+  intro H. eexists. split.
+  - replace ((line ++ [10]) ++ rest) with (line ++ 10 :: rest) by norm_app.
+    replace (length pre + length (line ++ [10%N]))%nat with (S (length pre + length line)) by len_eq.
+    apply cmd_parses2, H.
+  - cbn [map]. rewrite (annotate_node_eq pre (line ++ [10]) rest) by first [solve [reflexivity] | solve [len_eq]].
+    unfold cmd_t. cbn [map]. f_equal. f_equal. unfold cmd_ok2 in H.
+    apply andb_prop in H as [H _]. apply andb_prop in H as [H He]. apply andb_prop in H as [_ Hs].
+    apply trim_line; assumption.
+Qed.
+
+Lemma cmd_line_start2 line rest : cmd_ok2 line = true -> starts_blank ((line ++ [10]) ++ rest) = false.
+Proof. intro H. replace ((line ++ [10]) ++ rest) with (line ++ 10 :: rest) by norm_app. apply (cmd_ok2_facts line H rest). Qed.
+
+Lemma cmd_item_X2 line : cmd_ok2 line = true -> item_ok X_body (line ++ [10]) (cmd_t line).
+Proof.
+  intro H. split; [intro rest; apply cmd_line_start2, H|]. split; [destruct line; discriminate|].
+  intros pre rest. apply parsed_alt_l, cmd_parsed2, H.
+Qed.
+
+Lemma cmd_item_Y2 line : cmd_ok2 line = true -> item_ok Y_top (line ++ [10]) (cmd_t line).
+Proof.
+  intro H. split; [intro rest; apply cmd_line_start2, H|]. split; [destruct line; discriminate|].
+  intros pre rest. pose proof (cmd_line_start2 line rest H) as Hb.
+  assert (F := cmd_ok2_facts line H rest). destruct F as [_ [F1 [F2 F3]]].
+  replace (line ++ 10 :: rest) with ((line ++ [10]) ++ rest) in F1, F2, F3 by norm_app.
+  unfold Y_top.
+  apply parsed_alt_r; [apply exp_if_fails; assumption|].
+  apply parsed_alt_r; [apply exp_for_fails; assumption|].
+  apply parsed_alt_r; [apply exp_while_fails; assumption|].
+  apply cmd_parsed2, H.
+Qed.
+
+Lemma cmd_ok_2 line : cmd_ok line = true -> cmd_ok2 line = true.
+Proof.
+  unfold cmd_ok, cmd_ok2. intro H. apply andb_prop in H as [H Hk]. rewrite H. cbn [andb].
+  unfold strict_nokw, kw_prefixes in Hk. cbn [forallb] in Hk.
+  repeat (apply andb_prop in Hk as [? Hk]).
+  repeat match goal with X : negb _ = true |- _ => apply negb_true_iff in X end.
+  apply negb_true_iff. unfold starts_kw.
+  repeat match goal with X : has_prefix _ line = false |- _ => rewrite X end. cbn [orb].
+  destruct (str_eqb line s_else) eqn:E1; [apply str_eqb_eq in E1; subst line; discriminate|].
+  destruct (str_eqb line s_fi) eqn:E2; [apply str_eqb_eq in E2; subst line; discriminate|].
+  destruct (str_eqb line s_done) eqn:E3; [apply str_eqb_eq in E3; subst line; discriminate|].
+  reflexivity.
+Qed.
+
 (** ================= the fragment ================= *)
 Fixpoint fragI_block (b : block) : bool :=
   match b with
@@ -606,7 +757,7 @@ Fixpoint fragI_block (b : block) : bool :=
   end
 with fragI_stmt (s : stmt) : bool :=
   match s with
-  | SCmd ind line => wfp_ind ind && cmd_ok line
+  | SCmd ind line => wfp_ind ind && cmd_ok2 line
   | SBlank ws => wfp_ind ws
   | SBreak ind => wfp_ind ind
   | SCont ind => wfp_ind ind
@@ -822,8 +973,8 @@ Proof.
     destruct (IHs Hs) as [SX SY]. destruct (IHr Hr) as [RX RY].
     cbn [itemsI]. split; constructor; assumption.
   - (* SCmd *) intros ind line H.
-    change (fragI_stmt (SCmd ind line)) with (wfp_ind ind && cmd_ok line) in H. apply andb_prop in H as [Hi Hl].
-    split; apply old_item; [exact Hi | apply cmd_item_X, Hl | exact Hi | apply cmd_item_Y, Hl].
+    change (fragI_stmt (SCmd ind line)) with (wfp_ind ind && cmd_ok2 line) in H. apply andb_prop in H as [Hi Hl].
+    split; apply old_item; [exact Hi | apply cmd_item_X2, Hl | exact Hi | apply cmd_item_Y2, Hl].
   - (* SBlank *) intros ws H. change (fragI_stmt (SBlank ws)) with (wfp_ind ws) in H.
     split; apply old_item; [exact H | apply blank_item_X | exact H | apply blank_item_Y].
   - (* SBreak *) intros ind H. change (fragI_stmt (SBreak ind)) with (wfp_ind ind) in H.
@@ -1000,7 +1151,7 @@ Proof.
   - intros s IHs r IHr H. change (frag_block (BCons s r)) with (frag_stmt s && frag_block r) in H.
     apply andb_prop in H as [H1 H2]. change (fragI_block (BCons s r)) with (fragI_stmt s && fragI_block r).
     rewrite (IHs H1), (IHr H2). reflexivity.
-  - intros [|] line H; [exact H | discriminate H].
+  - intros [|] line H; [exact (cmd_ok_2 line H) | discriminate H].
   - intros ws H. discriminate H.
   - intros [|] H; [reflexivity | discriminate H].
   - intros [|] H; [reflexivity | discriminate H].
